@@ -330,7 +330,8 @@ def run_wrap(arg):
         if via == "periodic":
             tr = T.PeriodicTransform(lower=np.array([lo]), upper=np.array([hi]), xp=xp, dtype=dtype)
         else:
-            tr = T.CompositeTransform(parameters=["p0"], periodic_parameters=["p0"], prior_bounds={"p0": [lo, hi]},
+            label = 0 if via == "composite-int" else "p0"  # integer labels are the ones the class's type hints document
+            tr = T.CompositeTransform(parameters=[label], periodic_parameters=[label], prior_bounds={label: [lo, hi]},
                                       bounded_to_unbounded=False, affine_transform=False, xp=xp, dtype=dtype)
         x = to_ns(np.array(vals).reshape(-1, 1), ns, dt)
         outs = {"forward": tr.forward(x), "inverse": tr.inverse(x), "fit": (tr.fit(x), None)}
@@ -341,6 +342,10 @@ def run_wrap(arg):
         r.violation(f"C04/wrap/raises/{type(e).__name__}/{exc_site(e)}/{ns}", repr(e)[:200], case)
         return r.dump()
     xs = tonp(x).astype(np.float64).reshape(-1)
+    if via != "periodic" and getattr(tr, "_periodic_transform", None) is None:
+        r.case(explorer.digest(case))
+        r.violation(f"C04/wrap/periodic-parameter-not-wrapped/{via}", {"periodic_parameters": repr(tr.periodic_parameters)}, case)
+        return r.dump()
     los = float(tonp(tr.lower if via == "periodic" else tr._periodic_transform.lower).reshape(-1)[0])
     his = float(tonp(tr.upper if via == "periodic" else tr._periodic_transform.upper).reshape(-1)[0])
     Ps = his - los
@@ -478,7 +483,7 @@ def run(tier, seed, workers):
     for b in BOUNDS + [(0.0, 2 * math.pi), (-math.pi, math.pi)]:
         for ns in ("numpy", "torch", "jax"):
             for dt in ("float64", "float32"):
-                for via in ("periodic", "composite"):
+                for via in ("periodic", "composite", "composite-int"):
                     jobs.append(("run_wrap", (b, ns, dt, via)))
     for ns in ("numpy", "torch"):
         for b2u, affine in ((True, False), (True, True), (False, True)) if tier == "thorough" else ((True, False), (False, True)):
